@@ -736,12 +736,26 @@ def gen_udp():
     quic = strip_rust(open(os.path.join(REPO, "src/common/quic.rs")).read())
     qt = fn_body(quic, "quic_frames_thread")
     by_sid = bool(re.search(r"let\s+sid\s*=\s*frame\s*\.\s*session_id\s*;", qt)) and bool(re.search(r"sessions\s*\.\s*get\s*\(\s*&sid\s*\)", qt))
+    # fragment ids: the peer reassembles every session of a connection in one table keyed by the id alone, so the id of a
+    # write must come from a counter shared by all writers (a static atomic, fetch_add), not from a field of the writer
+    wr = block_after(quic, r"impl\s+FrameWriter\s+for\s+QuicFrameWriter\s*\{")
+    wbody = fn_body(wr, "write") if wr else ""
+    m_id = re.search(r"make_fragments\s*\(\s*[^,]+,\s*&mut\s+([A-Za-z_][\w\.]*)\s*,", wbody)
+    ids_shared = False
+    if m_id and not m_id.group(1).startswith("self."):
+        var = re.escape(m_id.group(1))
+        m_src = re.search(r"let\s+mut\s+" + var + r"\s*=\s*([A-Z_][A-Z0-9_]*)\s*\.\s*fetch_add\s*\(\s*1\s*,", wbody)
+        if m_src:
+            ids_shared = bool(re.search(r"\bstatic\s+" + re.escape(m_src.group(1)) + r"\s*:\s*AtomicU16\b", quic))
+    one_table = bool(re.search(r"let\s+mut\s+f\s*:\s*Fragments\s*<\s*Frame\s*>\s*=\s*Fragments\s*::\s*new", qt)) and len(re.findall(r"\.\s*reassemble\s*\(", qt)) == 1
     B = lambda b: "true" if b else "false"
     out = "(* GENERATED by gen/translate.py from src/listeners/reverse.rs, src/common/udp.rs, src/common/quic.rs.  Do not edit. *)\n"
     out += "Definition reverse_first_datagram_forwarded : bool := %s.\n" % B(first_forwarded)
     out += "Definition reverse_known_session_forwarded : bool := %s.\n" % B(known_forwarded)
     out += "Definition udp_reader_propagates_recv_error : bool := %s.\n" % B(not discards)
     out += "Definition quic_frames_dispatched_by_session_id : bool := %s.\n" % B(by_sid)
+    out += "Definition quic_fragment_ids_shared_by_all_writers : bool := %s.\n" % B(ids_shared)
+    out += "Definition quic_one_reassembly_table_per_connection : bool := %s.\n" % B(one_table)
     return out
 
 
